@@ -1,4 +1,4 @@
-\* MC_MxIOSpec_quick.cfg2
+\* MC_MxIOSpec_thorough.cfg2
 CONSTANTS
   Models = {"M1", "M2"}
   BaseInit = {"M1"}
@@ -9,7 +9,7 @@ CONSTANTS
   MVals = {}
   WithDelSpace = FALSE
   ExploreTainted = FALSE
-  MaxOps = 3
+  MaxOps = 4
   Dump = TRUE
 VIEW View
 INIT Init
